@@ -37,8 +37,8 @@ type apiPkg struct {
 }
 
 var apiPkgs = []apiPkg{
-	{"safehtml", "/repo", "safehtml"},
-	{"template", "/repo/template", "template"},
+	{"safehtml", repoRoot(), "safehtml"},
+	{"template", repoRoot() + "/template", "template"},
 }
 
 var apiPathIDs = map[string]string{
